@@ -18,7 +18,8 @@
 (*    input, so the code path is a function of the input.                  *)
 (*                                                                         *)
 (*  * the PROPERTY predicates (Delivered, Closed, Partition, UnderLimit,   *)
-(*    DepthCovers, PinsOnSuccess, FailureNoRootPin, ContentOK), written    *)
+(*    DepthCovers, PinsOnSuccess, StoredByAllocation, FailureNoRootPin,    *)
+(*    ContentOK), written                                                  *)
 (*    from the statement over what was OBSERVED (event log + the links     *)
 (*    decoded from the delivered bytes), never over Run(in).               *)
 (*                                                                         *)
@@ -331,6 +332,25 @@ PinsOnSuccess(in, out) ==
                    /\ sh[i].rmin = in.rmin /\ sh[i].rmax = in.rmax
                    /\ AllocsAsSent(in, out, sh[i], Range(DataLinks(out.graph, DataIds(in), sh[i].cid)))
 
+\* Judged from what each destination daemon REALLY stored (a put it accepted): on success every
+\* block is held by at least one daemon of the allocation recorded in the pin that covers it
+\* (the root pin; for sharded adds the pin of the shard linking the block, including the shard's
+\* own nodes).  "Everywhere" pins (empty list) are covered by any daemon; local adds are exempt
+\* from the allocation clause (blocks go to the local daemon by design) but not from storage.
+StoredAt(out, d) == {e.blk : e \in {x \in Range(Puts(out)) : \E j \in DOMAIN x.res : x.res[j].d = d /\ x.res[j].r = "ok"}}
+HeldBy(in, out, p, ids) ==
+    LET where == IF in.rmin < 0 \/ (in.local /\ ~in.shard) THEN Range(DestOrder) ELSE Range(p.allocs)
+        held  == UNION {StoredAt(out, d) : d \in where}
+    IN ids \subseteq held
+StoredByAllocation(in, out) ==
+    out.ok =>
+      LET ps == Pins(out) IN
+      IF ~in.shard THEN \A i \in DOMAIN ps : ps[i].type = "data" => HeldBy(in, out, ps[i], DataIds(in))
+      ELSE \A p \in Range(OfType(ps, "shard")) :
+              HeldBy(in, out, p, Range(DataLinks(out.graph, DataIds(in), p.cid))
+                                 \cup (Reach(out.graph, {p.cid}) \ DataIds(in))
+                                 \cup {p.cid})
+
 \* on failure the root is not pinned; at no time is it pinned before the add succeeded
 FailureNoRootPin(in, out) ==
     ~out.ok => \A p \in Range(Pins(out)) : p.type \notin {"data", "meta"} /\ p.cid # in.root
@@ -342,9 +362,10 @@ ContentOK(out) ==
               /\ c.refroot = "" \/ c.refroot = c.rootcid
               /\ c.other = "" \/ c.other = c.rootcid
 
-Preds == <<"Delivered", "Closed", "Partition", "UnderLimit", "DepthCovers", "PinsOnSuccess", "FailureNoRootPin">>
+Preds == <<"StoredByAllocation", "Delivered", "Closed", "Partition", "UnderLimit", "DepthCovers", "PinsOnSuccess", "FailureNoRootPin">>
 Holds(name, in, out) ==
     CASE name = "Delivered"        -> Delivered(in, out)
+      [] name = "StoredByAllocation" -> StoredByAllocation(in, out)
       [] name = "Closed"           -> Closed(in, out)
       [] name = "Partition"        -> Partition(in, out)
       [] name = "UnderLimit"       -> UnderLimit(in, out)
